@@ -39,3 +39,41 @@ def Op.touchesDest : Op → Bool
   | _ => false
 
 end Pico.ToFile
+
+/-! ### `tool.process_game_files`: several carts on one command line (luamin / luafmt / writep8) -/
+namespace Pico.ToFile
+
+/-- the file store the command works on: path ↦ content -/
+abbrev Store := List (String × Bytes)
+
+def Store.get (s : Store) (p : String) : Option Bytes := (s.find? (·.1 == p)).map (·.2)
+def Store.set (s : Store) (p : String) (c : Bytes) : Store := (p, c) :: s.filter (·.1 != p)
+
+/-- one cart named on the command line -/
+structure CartArg where
+  name : String                -- as given
+  png : Bool                   -- ends with .p8.png (else .p8)
+  loads : Bool                 -- `_games_for_filenames` could load it (otherwise an error is reported and the cart is skipped)
+  enc : Enc                    -- what writing its processed form does (returns the new file's chunks / raises)
+
+def stem (c : CartArg) : String := (c.name.dropEnd (if c.png then 7 else 3)).toString
+
+/-- the output name: the input itself with `--overwrite` for a .p8 cart, else `<stem>_fmt.<ext>` -/
+def outName (overwrite : Bool) (c : CartArg) : String :=
+  if overwrite && !c.png then c.name else stem c ++ (if c.png then "_fmt.p8.png" else "_fmt.p8")
+
+inductive Outcome | done (hasErrors : Bool) | raised
+  deriving DecidableEq, Repr
+
+/-- the loop: an unloadable cart is skipped (flagged); a cart whose write raises ends the command there (the exception
+propagates), leaving the later carts unprocessed -/
+def processGameFiles (overwrite : Bool) : List CartArg → Store → Bool → Store × Outcome
+  | [], s, err => (s, .done err)
+  | c :: rest, s, err =>
+    if !c.loads then processGameFiles overwrite rest s true else
+    let out := outName overwrite c
+    let r := toFile c.enc c.png (s.get out)
+    if r.ok then processGameFiles overwrite rest (match r.dest with | some d => s.set out d | none => s) err
+    else (s, .raised)
+
+end Pico.ToFile
